@@ -250,9 +250,38 @@ impl T64 {
 }
 
 /// A random transform for the drawing checks: `kind` picks the family.
+/// Matrices that almost belong to a simpler class than they do - what a fast-path test that looks at too few
+/// entries mistakes for a translation, an integer translation or the identity: a unit diagonal with a shear on
+/// one side only, entries within 1e-3 of the identity, exact quarter turns and mirrors with whole translations.
+pub fn special_transform(rng: &mut Rng, w: f64, h: f64) -> Transform {
+    let ti = |rng: &mut Rng| rng.int(-3, 3) as f32;
+    let tf = |rng: &mut Rng| if rng.chance(0.5) { rng.int(-3, 3) as f32 } else { rng.range(-3., 3.) as f32 };
+    let sh = |rng: &mut Rng| *rng.pick(&[0.5f32, -0.5, 0.25, 1.0, -1.0, 0.3, -0.7]);
+    match rng.below(8) {
+        0 => Transform::new(1., 0., sh(rng), 1., ti(rng), ti(rng)),
+        1 => Transform::new(1., sh(rng), 0., 1., ti(rng), ti(rng)),
+        2 => Transform::new(1., 0., sh(rng), 1., tf(rng), tf(rng)),
+        3 => Transform::new(1., sh(rng), 0., 1., tf(rng), tf(rng)),
+        4 => {
+            let e = |rng: &mut Rng| *rng.pick(&[0.0f32, 0.00075, -0.0005, 0.0009, 0.0001]);
+            Transform::new(1. + e(rng), e(rng), e(rng), 1. + e(rng), if rng.chance(0.5) { 0. } else { ti(rng) }, 0.)
+        }
+        5 => {
+            // exact quarter turn about the centre of the surface (whole translation when w and h are even)
+            let (cx, cy) = ((w / 2.).floor() as f32, (h / 2.).floor() as f32);
+            Transform::translation(-cx, -cy).then(&Transform::new(0., 1., -1., 0., 0., 0.)).then_translate(euclid::vec2(cx, cy))
+        }
+        6 => Transform::new(-1., 0., 0., 1., w.floor() as f32, ti(rng)),
+        _ => Transform::new(1., 0., 0., 1., ti(rng), ti(rng) + *rng.pick(&[0.5f32, 0.25, 0.75])),
+    }
+}
+
 pub fn random_transform(rng: &mut Rng, w: f64, h: f64) -> Transform {
     let cx = w / 2.;
     let cy = h / 2.;
+    if rng.chance(0.1) {
+        return special_transform(rng, w, h);
+    }
     match rng.below(8) {
         0 => Transform::identity(),
         1 => Transform::translation(rng.int(-3, 3) as f32, rng.int(-3, 3) as f32),
